@@ -107,7 +107,7 @@ def run_case(direction, body_len, chunk, corrupt_block, corrupt_offset, fails, t
         box = {}
         t = threading.Thread(target=lambda: box.setdefault("r", sender.send_stream_function(fn)), daemon=True)
         t.start()
-        t.join(8.0)
+        t.join(8.0 * H.scale())
         time.sleep(0.05)
         H.wait_until(lambda: len(rlog["message_received"]) >= 1, 0.6 if corrupt is None else 0.2)
         w = dict(tag, direction=direction, body_bytes=len(body), blocks=n_blocks, chunk=chunk, corrupt_block=corrupt_block, corrupt_offset=corrupt_offset)
